@@ -42,8 +42,8 @@ Proof.
   assert (HO' : edges_ok st') by (apply (run_edges_ok [o] st W HI HO); constructor; [exact Hop|constructor]).
   rewrite (C06_complete st o W HI Hop Hr a). fold st'.
   destruct o as [id pts|id par pts].
-  - symmetry. apply (ancestors_walks st' W' HO' false).
-  - symmetry. apply (ancestors_walks st' W' HO' true).
+  - symmetry. apply (ancestors_walks st' HO' false).
+  - symmetry. apply (ancestors_walks st' HO' true).
 Qed.
 Print Assumptions C06_spec_is_closure.
 
